@@ -10,7 +10,7 @@ from . import phylo
 
 
 def random_dates(rng, n, mode=None):
-    mode = mode or str(rng.choice(["iso", "ages", "calendar", "ties", "ties-calendar", "negative"]))
+    mode = mode or str(rng.choice(["iso", "ages", "calendar", "ties", "ties-calendar", "negative", "int-ages", "int-calendar"]))
     if mode == "iso":
         v = np.zeros(n)
     elif mode == "ages":
@@ -18,6 +18,11 @@ def random_dates(rng, n, mode=None):
         v[int(rng.integers(n))] = 0.0
     elif mode == "calendar":
         v = 1990 + rng.uniform(0, 20, n)
+    elif mode in ("int-ages", "int-calendar"):
+        # whole numbers written without a decimal point (JSON integers): years, or ages in whole time units
+        v = rng.integers(0, 7, n)
+        v[int(rng.integers(n))] = 0
+        return mode, [int(x) + (1995 if mode == "int-calendar" else 0) for x in v]
     elif mode == "negative":
         # forward-running dates relative to a reference day / the last sample, BCE years: all <= 0 (the latest one 0 or below)
         v = -rng.uniform(0.1, 5, n)
@@ -47,6 +52,9 @@ def make_case(rng, topo, param="ratio", dates_mode=None, batch=0):
         style = rng.random()
         if style < 0.15:
             u = np.where(rng.random(u.shape) < 0.5, 1e-6, 1 - 1e-6) * np.ones_like(u)
+        elif style < 0.25:
+            # closer to the ends of the interval than any plausible guard value
+            u = rng.choice([1e-9, 3e-8, 1 - 1e-9, 1 - 4e-7, 0.5], size=u.shape)
         else:
             u = np.clip(u, 1e-6, 1 - 1e-6)
         th = phylo.tip_heights(case)
